@@ -166,8 +166,8 @@ def build_gen(modules):
     return rc == 0, out
 
 
-def audit_gen(names):
-    src = "import BGVGen.C20\nimport BGVGen.C18\n" + "\n".join(f"#print axioms BGVGen.{n}" for n in names) + "\n"
+def audit_gen(names, module):
+    src = f"import {module}\n" + "\n".join(f"#print axioms BGVGen.{n}" for n in names) + "\n"
     path = os.path.join(core.LEAN, f".audit-gen-{os.getpid()}.lean")
     open(path, "w").write(src)
     rc, out = core.sh(["lake", "env", "lean", path], cwd=core.LEAN, timeout=600)
@@ -199,12 +199,13 @@ def run_c20(pid, tier, seed, args, ctx):
     os.makedirs(wd, exist_ok=True)
     report = {}
     # ---- 1. regenerate the tables from the source and re-check the theorems about them
-    facts, terr = run_translator()
-    thms = gen_theorems("C20.lean")
-    ok, out = build_gen(["BGVGen.C20"])
+    with core.lean_lock():
+        facts, terr = run_translator()
+        thms = gen_theorems("C20.lean")
+        ok, out = build_gen(["BGVGen.C20"])
+        ax, aout = audit_gen(thms, "BGVGen.C20") if ok else ({}, "")
     discharged = 0
     if ok:
-        ax, aout = audit_gen(thms)
         for t in thms:
             if t in ax and set(ax[t]) <= core.ALLOWED_AXIOMS:
                 discharged += 1
@@ -385,13 +386,14 @@ TSAN_FLAGS = ["-std=c++17", "-O1", "-g1", "-fsanitize=thread"]
 def run_c18(pid, tier, seed, args, ctx):
     violation = ctx["violation"]
     t0 = ctx["t0"]
-    facts, terr = run_translator()
-    thms = gen_theorems("C18.lean")
-    ok, out = build_gen(["BGVGen.C18"])
+    with core.lean_lock():
+        facts, terr = run_translator()
+        thms = gen_theorems("C18.lean")
+        ok, out = build_gen(["BGVGen.C18"])
+        ax, aout = audit_gen(thms, "BGVGen.C18") if ok else ({}, "")
     discharged = 0
     table_broken = False
     if ok:
-        ax, aout = audit_gen(thms)
         for t in thms:
             if t in ax and set(ax[t]) <= core.ALLOWED_AXIOMS:
                 discharged += 1
